@@ -37,6 +37,8 @@ func init() {
 			{Pkg: "wire", Entry: "VerifH14", What: "rows = reference rows for every split; bad field count / truncated field -> error, never a panic or a fabricated row; trailer -> EOF",
 				Quick: map[string]int{"R": 8, "SPLITS": 2, "COLS": 2}, Thorough: map[string]int{"R": 11, "SPLITS": 2, "COLS": 2},
 				Witnesses: []string{"row-decoded", "null-field", "bad-row", "trailer", "split-at-boundary", "split-inside-tuple", "empty-chunk"}},
+			{Pkg: "wire", Entry: "VerifH14r", What: "three tuples whose rows the handler keeps until the stream has ended: each kept row still is the row decoded for it (values and a NULL in between)",
+				Quick: map[string]int{}, Witnesses: []string{"rows-kept-until-the-end-of-the-stream", "a-null-between-two-values"}},
 			{Pkg: "wire", Entry: "VerifH14q", What: "the stream starts with the first CopyData message: surplus bytes after the last field of the Query or Execute message that starts the COPY are not part of it — the row reader returns exactly the tuple the client encoded",
 				Quick: map[string]int{"S": 3}, Witnesses: []string{"surplus-after-the-last-field-of-the-starting-message", "copy-started-by-execute"}},
 			{Pkg: "wire", Entry: "VerifH14", What: "splits anywhere in the stream, also inside the 19-byte header",
